@@ -11,15 +11,15 @@ import (
 
 // SchemaOpts bounds the schema generator.
 type SchemaOpts struct {
-	MaxDepth   int
-	MaxLeaves  int
-	LeafIDs    []string
-	Flat       bool // only top-level leaves (required/optional[/repeated])
-	NoRepeated bool // no repeated / list / map anywhere
-	PerLeafEnc bool // draw per-leaf encodings
+	MaxDepth     int
+	MaxLeaves    int
+	LeafIDs      []string
+	Flat         bool // only top-level leaves (required/optional[/repeated])
+	NoRepeated   bool // no repeated / list / map anywhere
+	PerLeafEnc   bool // draw per-leaf encodings
 	PerLeafCodec bool
-	EncFor     func(phys int) []string // valid encoding names per physical type (incl. "")
-	Codecs     []string
+	EncFor       func(phys int) []string // valid encoding names per physical type (incl. "")
+	Codecs       []string
 }
 
 type schemaGen struct {
@@ -431,4 +431,63 @@ func uniqLeaf(l ref.Leaf, v ref.V, i int) ref.V {
 		return ref.V{B: b}
 	}
 	return v
+}
+
+// LeadEmpty rewrites the rows so that every variable-length byte array leaf is
+// the empty string in the first k rows and non-empty afterwards (a stretch of
+// pages holding only empty values followed by pages without any: chunk-level
+// aggregation across pages starts from an empty, non-nil bound).
+func LeadEmpty(root *ref.Node, rows []ref.V, k int) {
+	for i := range rows {
+		for c := range root.Children {
+			if c < len(rows[i].F) {
+				leadNode(&root.Children[c], &rows[i].F[c], i < k)
+			}
+		}
+	}
+}
+
+func leadNode(n *ref.Node, v *ref.V, empty bool) {
+	if v.Null {
+		return
+	}
+	if n.Rep == "rep" {
+		for i := range v.L {
+			leadContent(n, &v.L[i], empty)
+		}
+		return
+	}
+	leadContent(n, v, empty)
+}
+
+func leadContent(n *ref.Node, v *ref.V, empty bool) {
+	switch n.Kind {
+	case "leaf":
+		l := ref.ParseLeaf(n.Leaf)
+		if !l.IsBytes() || l.Phys == ref.FLBA || l.Phys == ref.Int96 {
+			return
+		}
+		if empty {
+			v.B = []byte{}
+		} else if len(v.B) == 0 {
+			v.B = []byte("a")
+		}
+	case "group":
+		for i := range n.Children {
+			if i < len(v.F) {
+				leadNode(&n.Children[i], &v.F[i], empty)
+			}
+		}
+	case "list":
+		for i := range v.L {
+			leadNode(&n.Children[0], &v.L[i], empty)
+		}
+	case "map":
+		for i := range v.L {
+			// keys stay as generated (distinct keys per map)
+			if len(v.L[i].F) > 1 {
+				leadNode(&n.Children[1], &v.L[i].F[1], empty)
+			}
+		}
+	}
 }
